@@ -319,7 +319,14 @@ theorem connStepR_kinv {other : Circuit} {mapping : Dict Label} {pre : String} {
             unfold Circuit.labels; rw [hgates, labels_map_replG]
           refine ⟨w2, ?_, ?_, inv.mapped, ⟨r', rk1', ?_, rk3⟩, ?_⟩
           · intro l x hl; simp only at hl ⊢; rw [hlab]; exact inv.vals l x hl
-          · intro x hx; simp only at hx ⊢; rw [hlab]; exact inv.forB x hx
+          · intro x hx
+            simp only at hx ⊢
+            rw [hlab]
+            split at hx
+            · rcases List.mem_append.mp hx with hx | hx
+              · exact inv.forB x hx
+              · simp only [List.mem_singleton] at hx; subst hx; exact hls
+            · exact inv.forB x hx
           · intro x hx y hy
             simp only at hy
             simp only [List.mem_append, List.mem_singleton] at hx
